@@ -1,6 +1,7 @@
 (* Properties_C14.v - "Every PDU sent is well-formed; error reports echo the offending PDU exactly".
    Theorems about the executable RTR model (Rtr/RtrModel.v), which is tied to /repo by the correspondence
    run of tools/props/C14.py on every check.  Proofs: Rtr/SendBase.v, Rtr/SendProofs.v, Rtr/SendSites.v. *)
+From RtrV Require Rtr.FsmTie3.
 From RtrV Require Import Base.CSem Gen.Generated Rtr.RtrModel Rtr.RelFrame Rtr.RecvBase Rtr.SendBase Rtr.RecvProofs
      Rtr.SendProofs Rtr.SendSites.
 From RtrV Require Rtr.SendExamples.   (* concrete runs: the hypotheses below are satisfiable, the conclusions exact *)
@@ -164,6 +165,11 @@ Theorem C14_bytes : forall v code (enc text : list byte), Forall byte_ok enc -> 
   error_report v code enc text =
     [v mod 256; c_ERROR] ++ enc16 code ++ enc32 (16 + zlen enc + zlen text) ++ enc32 (zlen enc) ++ enc ++ enc32 (zlen text) ++ text.
 Proof. exact error_report_bytes. Qed.
+
+(* which Error Report rtr_receive_pdu sends for which violation (length below a header, above the maximum, wrong for the type, unknown
+   type, inconsistent Error Report lengths): the function is translated on every run (Gen/GeneratedFsm3.v) and TESTED inside Coq against
+   the model on closed scripts - result, trace with the report's bytes, buffer (evaluation, not a theorem; Rtr/FsmTie3.v) *)
+Example C14_receive_pdu_report_tests := Rtr.FsmTie3.recv_rejects.
 
 Print Assumptions C14_queries_wf.
 Print Assumptions C14_query_bytes.
